@@ -4,7 +4,12 @@ Resource-space correspondence: batch blocks x step resource dictionaries x
 launcher token forms for the real Slurm, LSF, Flux (fake `flux` module) and
 local adapters; the script text / exception class is compared with
 Model/Launcher.lean, and an independent monitor reads the generated script
-(header lines and launcher invocations) against the declared resources.
+(header lines and launcher invocations) against the declared resources.  Flux
+takes its resources from the job specification built at submission: every
+scheduled Flux script is also submitted to a recording `flux.job` and the
+specification (nodes, tasks or slots, cores, gpus, duration, command, working
+directory, nested or not, the job id handed back) is read by the monitor
+(clause flux-request; monitor only, the submission is not in the Lean model).
 """
 import os
 import re
@@ -20,7 +25,8 @@ RULE = ("random batch blocks (any subset of nodes / procs / reservation / qos / 
         "parameter gives them, walltimes in every admitted spelling) x command texts with 0-3 lines of 0-2 launcher "
         "tokens each (bare, [Nn, Pp], [Pp, Nn], [Pp], legacy [N, P], nodes-only, within or beyond the step's totals) "
         "for the real Slurm / LSF / Flux / local adapters, 35% of the cases followed by 2-4 more steps through the "
-        "same adapter instance; a malformed stream (non-numeric counts, None, booleans, broken tokens, missing batch "
+        "same adapter instance; every scheduled Flux script is submitted to a recording flux.job (30% nested); "
+        "a malformed stream (non-numeric counts, None, booleans, broken tokens, missing batch "
         "keys) is compared with the model but not judged by the monitor; non-trivial = a script was generated for a "
         "scheduled step; distinct = distinct (adapter, batch, step) triples")
 
@@ -204,6 +210,7 @@ def gen_case(rng, malformed):
         run["walltime"] = "00:59:30"      # float repr of fractional seconds is outside the model
     if adapter == "flux" and "walltime" in run and rng.random() < 0.12:
         run["walltime"] = "inf"           # Flux's spelling of "no limit"
+    nested = adapter == "flux" and rng.random() < 0.3
     if rng.random() < 0.2:
         run["reservation"] = "stepres"
     if rng.random() < 0.25:
@@ -231,7 +238,7 @@ def gen_case(rng, malformed):
     desc = rng.choice(["d", "two\nlines", "say \"hi\"", "A longer description."])
     return {"adapter": adapter, "kw": kw, "fargs": {k: str(v) for k, v in fargs.items()},
             "envuri": envuri, "name": name, "desc": desc, "run": run,
-            "malformed": malformed, "tokens": toks, "rtokens": rtokens_or(rtoks)}
+            "malformed": malformed, "tokens": toks, "rtokens": rtokens_or(rtoks), "nested": nested}
 
 
 def rtokens_or(x):
@@ -271,6 +278,8 @@ def run_real(case, root, shared=None):
                 return "RAISE:%s" % type(e).__name__, None
             with open(path) as f:
                 main = f.read()
+            if case["adapter"] == "flux" and sched:
+                case["flux_request"] = flux_submit(a, step, path, ws, case)
             restart = None
             if rpath:
                 with open(rpath) as f:
@@ -282,6 +291,76 @@ def run_real(case, root, shared=None):
             shutil.rmtree(ws, ignore_errors=True)
     finally:
         os.environ.pop("FLUX_URI", None)
+
+
+def flux_submit(a, step, path, ws, case):
+    """Flux gets its resources from the job specification built at submission, not from the script's
+    header: submit the script to the recording Flux and return what was asked for"""
+    nested = case.get("nested", False)
+    saved = dict(step.run)
+    if nested:
+        step.run["nested"] = True
+    fakeenv.FLUX.submitted = []
+    fakeenv.FLUX.submit_raises = None
+    fakeenv.FLUX.next_id = "f%s" % (case["name"] or "x")
+    try:
+        try:
+            rec = a.submit(step, path, ws)
+        except Exception as e:
+            return {"raised": type(e).__name__}
+        req = dict(fakeenv.FLUX.submitted[-1]) if fakeenv.FLUX.submitted else {}
+        req["code"] = rec.submission_code.name
+        req["jobid"] = rec.job_identifier
+        req["want_id"] = fakeenv.FLUX.next_id
+        req["path"], req["cwd"] = path, ws
+        return req
+    finally:
+        step.run.clear()
+        step.run.update(saved)
+
+
+def check_flux_request(case, mon):
+    """the job specification asks for exactly the step's resources"""
+    req = case.get("flux_request")
+    if req is None:
+        return
+    run = case["run"]
+    if "raised" in req:
+        mon.append(("never-fails", "flux: submitting the generated script raised %s (run=%r)" % (req["raised"], run)))
+        return
+    if req["code"] != "OK" or "how" not in req:
+        mon.append(("flux-request", "flux: the job specification was not submitted (%s)" % req["code"]))
+        return
+    if str(req["jobid"]) != req["want_id"]:
+        mon.append(("flux-request", "flux: Flux answered job id %r, the submission record holds %r"
+                    % (req["want_id"], req["jobid"])))
+    args = req["args"]
+    nested = req["how"] == "nest"
+    if bool(case.get("nested", False)) != nested:
+        mon.append(("flux-request", "flux: nested=%r but the job was built with from_%s"
+                    % (case.get("nested", False), "nest_command" if nested else "command")))
+    want = {"num_nodes": int(run["nodes"]) if declared(run.get("nodes")) else 1,
+            "num_slots" if nested else "num_tasks": int(run["procs"]) if declared(run.get("procs")) else 1,
+            "cores_per_slot" if nested else "cores_per_task":
+                int(run["cores per task"]) if declared(run.get("cores per task")) else 1}
+    for key, val in want.items():
+        if args.get(key) != val:
+            mon.append(("flux-request", "flux: step declares nodes=%r procs=%r cores per task=%r, the job "
+                        "specification asks for %s=%r (wanted %r)"
+                        % (run.get("nodes"), run.get("procs"), run.get("cores per task"), key, args.get(key), val)))
+    gp = args.get("gpus_per_slot" if nested else "gpus_per_task")
+    if ("gpus" in run and is_count(run["gpus"], 1)) != bool(gp):
+        mon.append(("flux-request", "flux: step declares gpus=%r, the job specification asks for %r"
+                    % (run.get("gpus"), gp)))
+    if req["command"] != [req["path"]] or req["attrs"].get("cwd") != req["cwd"]:
+        mon.append(("flux-request", "flux: the job runs %r in %r, the script is %r in %r"
+                    % (req["command"], req["attrs"].get("cwd"), req["path"], req["cwd"])))
+    wt = run.get("walltime")
+    exp = flux_seconds(wt) if declared(wt) else 0.0
+    got = req["attrs"].get("duration", 0)
+    if float(got) != exp:
+        mon.append(("flux-request", "flux: declared walltime %r (= %s s), the job specification's duration is %r"
+                    % (wt, exp, got)))
 
 
 def full_run(case):
@@ -442,9 +521,33 @@ def check_launchers(case, which, tokens, out_text, mon):
             elif got_n is not None and not re.fullmatch(r"[0-9]+", got_n):
                 mon.append(("launcher-counts", "%s: %s gives no node count, launcher has -N %r"
                             % (adapter, t[0], got_n)))
+        check_launcher_extras(adapter, run, t[0], flags, inv, mon)
     if not out_text.startswith(segs[-1], cur) or len(out_text) != cur + len(segs[-1]):
         mon.append(("launcher-replaced", "%s: text after the last launcher token changed: %r"
                     % (adapter, out_text[cur:cur + 80])))
+
+
+def check_launcher_extras(adapter, run, tok, flags, inv, mon):
+    """the launcher's other resource flags are the step's own declarations (not those of another
+    step written through the same adapter): (flag, declared value or None, accepted when undeclared)"""
+    def cnt(key, lo=1):
+        v = run.get(key)
+        return str(int(v)) if key in run and is_count(v, lo) else None
+    if adapter == "slurm":
+        table = [("-c", cnt("cores per task"), (None,))]
+    elif adapter == "flux":
+        table = [("-c", cnt("cores per task"), (None, "1")), ("-g", cnt("gpus"), (None,))]
+    else:
+        table = [("-a", cnt("tasks per rs"), ("1",)), ("-r", cnt("rs per node"), ("1",)),
+                 ("-c", cnt("cpus per rs"), ("1",)), ("-g", cnt("gpus"), (None,)),
+                 ("-b", run.get("bind") or None, ("rs",)), ("-B", run.get("bind gpus") or None, (None,))]
+    for flag, want, undeclared in table:
+        got = flags.get(flag)
+        if flag == "-g" and "gpus" in run and is_count(run["gpus"], 0) and int(run["gpus"]) == 0:
+            want, undeclared = None, (None, "0")      # `gpus: 0` may be spelled out or left out
+        if (got != want) if want is not None else (got not in undeclared):
+            mon.append(("launcher-counts", "%s: %s: the step declares %s, the launcher has %s %r (%r)"
+                        % (adapter, tok, "%s" % want if want is not None else "nothing for " + flag, flag, got, inv)))
 
 
 def lsf_walltime(wt):
@@ -620,6 +723,8 @@ def monitor(case, out, parsed):
                 mon.append(("launcher-replaced", "%s: a command without launcher tokens was altered: %r"
                             % (adapter, body[:80])))
         check_header(case, head.split("\n"), mon)
+    if adapter == "flux":
+        check_flux_request(case, mon)
     return mon
 
 
@@ -628,6 +733,10 @@ def make_case(case, root, shared=None):
     mon = monitor(case, out, parsed)
     data = {k: case[k] for k in ("adapter", "kw", "fargs", "envuri", "name", "desc", "run", "malformed")}
     data["nth_step_of_adapter"] = case.get("nth", 1)
+    if "flux_request" in case:
+        data["flux_request"] = {k: v for k, v in case["flux_request"].items() if k != "attrs"}
+        data["flux_request"]["attrs"] = {k: v for k, v in case["flux_request"].get("attrs", {}).items()
+                                         if k != "environment"}
     data["tokens"] = None if case["tokens"] is None else [t[0] for t in case["tokens"]]
     data["impl"] = out if parsed is None else {"scheduled": parsed[0], "main": parsed[1], "restart": parsed[2]}
     nontrivial = parsed is not None and parsed[0]
@@ -714,6 +823,8 @@ def run(ctx, escalated=False):
         if d["tokens"]:
             ctx.count("tokens:%d" % min(len(d["tokens"]), 3))
         ctx.count("stream:" + ("malformed" if d["malformed"] else "admitted"))
+        if "flux_request" in d:
+            ctx.count("flux-job-specifications:" + d["flux_request"].get("how", "raised"))
     diffs = compare(cases)
     account(ctx, cases)
     judge(ctx, cases, diffs, "script-generation", max_report=4)
